@@ -135,19 +135,28 @@ func (uis *unresolvedTraceTagFilter) Analyze(s logical.Schema) (logical.Plan, er
 	// Build tag filter and create matcher for SIDX
 	var tagFilterMatcher model.TagFilterMatcher
 	var tagFilter logical.TagFilter
+	var elementFilter logical.TagFilter
 	if uis.criteria != nil {
 		orderByTags := orderByRuleTags(s, uis.orderByTag)
 		skippedTagNames := make([]string, 0, len(orderByTags)+2)
 		skippedTagNames = append(skippedTagNames, uis.traceIDTagName, uis.spanIDTagName)
-		skippedTagNames = append(skippedTagNames, orderByTags...)
+		// The span filter sees every tag of a span: only the identity tags are left out. A condition on the key tag
+		// of the ordering rule (NE, IN, ... cannot be turned into a key range) is decided here.
 		tagFilter, err = logical.BuildTagFilter(uis.criteria, entityDict, s, s, len(traceIDs) > 0, skippedTagNames...)
+		if err != nil {
+			return nil, err
+		}
+		// The element filter of the ordering index must not see the rule's own tags (the elements do not store them),
+		// and an OR it cannot decide completely must let the element pass: the span filter has the last word.
+		skippedTagNames = append(skippedTagNames, orderByTags...)
+		elementFilter, err = logical.BuildTagFilter(withoutUndecidableOr(uis.criteria, orderByTags), entityDict, s, s, len(traceIDs) > 0, skippedTagNames...)
 		if err != nil {
 			return nil, err
 		}
 		// Get the decoder from the execution context (trace module)
 		decoder := uis.ec.(model.TagValueDecoderProvider).GetTagValueDecoder()
 		// Create tag filter matcher for SIDX
-		tagFilterMatcher = logical.NewTagFilterMatcher(tagFilter, conditionSchema, decoder)
+		tagFilterMatcher = logical.NewTagFilterMatcher(elementFilter, conditionSchema, decoder)
 	}
 
 	plan := uis.selectTraceScanner(ctx, uis.ec, traceIDs, minVal, maxVal, tagFilterMatcher)
@@ -201,6 +210,50 @@ func orderByRuleTags(s logical.Schema, orderByTag string) []string {
 		return indexRule.Tags
 	}
 	return nil
+}
+
+// withoutUndecidableOr returns criteria with every OR subtree that mentions one of tagNames replaced by nil
+// ("always true"): such a disjunction cannot be decided without those tags.
+func withoutUndecidableOr(criteria *modelv1.Criteria, tagNames []string) *modelv1.Criteria {
+	if criteria == nil || len(tagNames) == 0 {
+		return criteria
+	}
+	le := criteria.GetLe()
+	if le == nil {
+		return criteria
+	}
+	if le.GetOp() == modelv1.LogicalExpression_LOGICAL_OP_OR && mentionsAny(criteria, tagNames) {
+		return nil
+	}
+	left, right := withoutUndecidableOr(le.GetLeft(), tagNames), withoutUndecidableOr(le.GetRight(), tagNames)
+	if left == le.GetLeft() && right == le.GetRight() {
+		return criteria
+	}
+	if left == nil {
+		return right
+	}
+	if right == nil {
+		return left
+	}
+	return &modelv1.Criteria{Exp: &modelv1.Criteria_Le{Le: &modelv1.LogicalExpression{Op: le.GetOp(), Left: left, Right: right}}}
+}
+
+func mentionsAny(criteria *modelv1.Criteria, tagNames []string) bool {
+	if criteria == nil {
+		return false
+	}
+	if cond := criteria.GetCondition(); cond != nil {
+		for _, n := range tagNames {
+			if cond.GetName() == n {
+				return true
+			}
+		}
+		return false
+	}
+	if le := criteria.GetLe(); le != nil {
+		return mentionsAny(le.GetLeft(), tagNames) || mentionsAny(le.GetRight(), tagNames)
+	}
+	return false
 }
 
 type traceAnalyzeContext struct {
